@@ -5,7 +5,10 @@ Step clause (tm/tape.py Tape.step == src/tape.rs Tape::step): proved in Lean on 
 the code they describe by a four-way comparison on step sequences
     real Rust `tapeops` | Lean `tapeops` (Tape.step) | real Python `pytapeops` | Lean `pytapeops` (pyStep).
 Run clause (Machine(prog).run(n) vs run_prover(prog, n)): differential exploration of the two real
-implementations, with the exclusions of the property's quantifier, each counted in the evidence.
+implementations, with the exclusions of the property's quantifier, each counted in the evidence;
+and, on every such case, the real Python run against the Lean model of the Python runner
+(BB/Model/PyMachine.lean `pyRun`, driver op `pyrun`), which is what the run-clause theorems of
+BB/Props/C17.lean (`py_rs_run_eq_partial`, `py_rs_run_eq_counterexample`) are about.
 """
 import itertools
 import json
@@ -367,6 +370,32 @@ def compare_run(r_line, p_line):
     return None, []
 
 
+PYMODEL_FIELDS = ("result", "cycles", "marks", "rulapp", "blanks", "last")
+
+
+def compare_pymodel(p_line, m_line):
+    """real Python `pyrun` line against the model's.  Returns (category, detail): category None =
+    compared and agree, 'outside' = both say the run leaves the additive fragment, 'skipped',
+    or 'MISMATCH'."""
+    if p_line == "PYTIMEOUT":
+        return "skipped", []
+    if m_line in ("BAD-OP", "PANIC", "limit:overflow") or m_line.startswith("BOUNDARY"):
+        return "MISMATCH", ["model:" + m_line[:60]]
+    if p_line.startswith("PYEXC") or m_line.startswith("PYEXC"):
+        return (None, []) if p_line == m_line else ("MISMATCH", ["exception"])
+    if p_line == "BAD-OP":
+        return "MISMATCH", ["python:BAD-OP"]
+    p, m = parse_kv(p_line), parse_kv(m_line)
+    if (p.get("nonadd") != "0") != (m.get("outside") != "0"):
+        return "MISMATCH", ["outside"]
+    if m.get("outside") != "0":
+        return "outside", []
+    bad = [f for f in PYMODEL_FIELDS if p.get(f) != m.get(f)]
+    if bad:
+        return "MISMATCH", bad
+    return None, []
+
+
 def check_runs(rep, tier, seed, cases):
     """cases: list of (lim, prog)"""
     t0 = time.time()
@@ -378,6 +407,31 @@ def check_runs(rep, tier, seed, cases):
                       found_input=False)
         return 0, 0
     impl_py = run_py(l_py, case_timeout=60 if tier != "thorough" else 150)
+    # the Lean model of the Python runner on the same cases
+    model_py = core.run_driver(l_py)
+    pm_cases = pm_mis = pm_out = pm_skip = 0
+    if model_py and model_py[0] == "BAD-OP":
+        rep.violation("driver-op-missing", {"op": "pyrun (BB/Driver/OpsPyRun.lean not wired)"},
+                      found_input=False)
+        pm_mis += 1
+    else:
+        for k, (p_line, m_line) in enumerate(zip(impl_py, model_py)):
+            cat, fields = compare_pymodel(p_line, m_line)
+            if cat == "skipped":
+                pm_skip += 1
+                continue
+            pm_cases += 1
+            if cat == "MISMATCH":
+                pm_mis += 1
+                rep.violation("correspondence", {"case": l_py[k], "what": "real Machine.run vs Lean pyRun",
+                                                 "fields": fields, "impl": p_line[:600], "model": m_line[:600]},
+                              found_input=False)
+            elif cat == "outside":
+                pm_out += 1
+    rep.cov["pymodel_cases"] = pm_cases
+    rep.cov["pymodel_mismatches"] = pm_mis
+    rep.cov["pymodel_outside"] = pm_out
+    rep.cov["pymodel_skipped_python_timeout"] = pm_skip
     excl, excl_ex, kinds_r, kinds_p = {}, {}, {}, {}
     overflow_idx = []
     compared = nontrivial = viol = 0
@@ -435,7 +489,7 @@ def check_runs(rep, tier, seed, cases):
         "compared_runs_with_UnknownRule": flags["unk"],
         "wall_s": round(time.time() - t0, 1),
     }
-    return len(cases) * 2, nontrivial
+    return len(cases) * 2 + pm_cases, nontrivial
 
 
 def gen_run_cases(tier, seed):
@@ -510,7 +564,7 @@ def check(rep, tier, seed, replay):
         + [f"pyrun {l} | {p}" for l, p in cases[len(cases) // 2: len(cases) // 2 + 2]]
     rep.assumptions += [
         "Python side: tm/*.py of /repo's working tree with the extension built from the same tree (release profile, as the Makefile ships it); Rust side of the run clause: the overflow-checked harness build",
-        "run clause is differential exploration of the two real implementations (no Lean model of the Python prover); the proof level applies to the step clause",
+        "run clause: differential exploration of the two real implementations, plus the Lean model of the Python runner (pyRun) compared with the real Machine.run on every case (kind, cycles, marks, rulapp, blanks, last; nonadd=1 <=> model says outside); the run-clause theorems (py_rs_run_eq_partial / _counterexample) relate pyRun to the model of run_prover",
         "pyStep models Python ints as Nat: exact unless a count goes negative, which happens only in the excluded zero-count case",
         "blank-tape record: states compared always, recorded step compared while Python's step counter is still defined (it is -1 after the first rule application)",
     ]
